@@ -38,3 +38,9 @@ Proof.
   revert l; induction n as [|n IH]; intro l; [reflexivity|].
   destruct l as [|x l]; [now rewrite !firstn_nil|]. cbn [plus firstn skipn app]. now rewrite IH.
 Qed.
+
+Lemma firstn_S_nth' {A} (l : list A) : forall i d, (i < length l)%nat -> firstn (S i) l = firstn i l ++ [nth i l d].
+Proof.
+  induction l as [|x l IH]; intros i d H; [cbn in H; lia|].
+  destruct i as [|i]; [reflexivity|]. cbn [firstn nth app]. f_equal. apply IH. cbn in H. lia.
+Qed.
